@@ -40,6 +40,42 @@ def known_match(kf, pid, rec):
     return None
 
 
+def binding_demo(scratch, trace):
+    """Corrupt one recorded field (the state announced by the first publication of a script prefix) and check that trace
+    validation rejects the corrupted trace; a validator that accepts it would make every verdict meaningless."""
+    lines = []
+    for ln in open(trace):
+        lines.append(ln)
+        if len(lines) >= 400:
+            break
+    done = None
+    for i, ln in enumerate(lines):
+        if '"k":"st"' in ln and '"s":"READY","pk"' in ln:
+            lines[i] = ln.replace('"s":"READY","pk"', '"s":"TF","pk"', 1)
+            done = i
+            break
+    if done is None:
+        return {"skipped": "no publication in the first 400 events"}
+    # cut at the next script boundary so the chunk is self-contained
+    end = len(lines)
+    for j in range(done + 1, len(lines)):
+        if '"op":"reset"' in lines[j][:90]:
+            end = j
+            break
+    start = 0
+    for j in range(done, -1, -1):
+        if '"op":"reset"' in lines[j][:90]:
+            start = j
+            break
+    p = scratch.path("binding-trace.ndjson")
+    open(p, "w").writelines(lines[start:end])
+    v = pool.validate_trace(scratch, p, "binding", par=1)
+    hit = sorted(set(c for b in v["bad"] for c in b["ids"]))
+    if not hit:
+        raise Infra("binding demonstration failed: a trace with a corrupted publication was accepted")
+    return {"corrupted": "first published state READY -> TF in event %d" % (done - start), "rejected_by": hit}
+
+
 def run(pid, tier, seed):
     t0 = time.time()
     rnd = random.Random(seed)
@@ -151,6 +187,8 @@ def run(pid, tier, seed):
             for c, n in tv["cnt"].items():
                 verdict["cnt"][c] = verdict["cnt"].get(c, 0) + n
             verdict["n"] += tv["n"]
+        # --- binding demonstration: corrupt one recorded field of a real trace prefix and require that the clauses reject it
+        binding = binding_demo(scratch, tr0)
         # --- violations of this property's clauses
         mine = []
         for b in verdict["bad"]:
@@ -214,6 +252,7 @@ def run(pid, tier, seed):
             "model_problems": [{"family": p["family"], "mode": p["mode"], "violated": p["violated"]} for p in problems],
             "known_findings_matched": known_hits,
             "config_text": text_stats,
+            "binding_demo": binding,
             "explanation": "TLC checks mechanism => clauses on specs/Pool.tla for every history up to max_events events per family "
                            "(states/transitions) and simulates deeper; every generated history is executed against the real balancer/picker "
                            "and TLC evaluates the clauses of specs/PoolGhost.tla on every recorded event (specs/PoolTrace.tla).",
